@@ -24,6 +24,7 @@ def run(tier, seed):
         PID, tier, seed, mc, rp,
         level_text='TLC exhaustive + replay of every behaviour of the dumped state graphs into the real Process',
         assumptions=C.ASSUMPTIONS + ['KillFromAnywhere is AG EF made first-order by determinism: in every reachable live state TLC evaluates Drain(Kill(S)); the implementation side is covered through conformance of every behaviour that contains a kill'],
+        suite_traces=lambda e: e[0] in ('cs', 'ce') and e[1] == 'kill',
         rule='every sequence of <=K requests from {kill,pause,play,resume,cancel-future} between any two callbacks, plus one re-entrant kill from a step body or a running/waiting/paused/played/output listener')
 
 
